@@ -1106,6 +1106,8 @@ class World(object):
             kf, tags = self.kf_rerun_after_cancel()
             if not kf:
                 kf, tags = self.kf_pending_items()
+            if not kf:
+                kf, tags = self.kf_resumed_paused_items()
             self.report("C02", "ing_has_inflight", "workflow %s with no action in flight" % st, tags=tags, kf=kf)
             if st == "canceling":
                 self.report("C10", "canceled_when_drained", "workflow still canceling after the last action reported")
@@ -1185,11 +1187,25 @@ class World(object):
                     return "KF-pending-task-leaves-items-task-running", ["pending_with_items_window"]
         return None, []
 
+    def kf_resumed_paused_items(self):
+        """Precise signature: the workflow was resumed (no pause request is outstanding) while a
+        with-items task with items left rests in `paused`; a resume request does not reach paused
+        tasks, so the next task completion sees a paused task and turns the workflow pausing again,
+        where the remaining items are never offered."""
+        if self.ever_paused and not self.pause_req and self.status in ("pausing", "paused") and not self.inflight:
+            for rec in self.snap["state"]["sequence"]:
+                if rec.get("status") == "paused" and (self.p["tasks"].get(rec.get("id")) or {}).get("with"):
+                    return "KF-resume-leaves-items-task-paused", ["resume_with_paused_items_task"]
+        return None, []
+
     def classify_stuck(self):
         kf, tags = self.kf_rerun_after_cancel()
         if kf:
             return kf, tags
         kf, tags = self.kf_pending_items()
+        if kf:
+            return kf, tags
+        kf, tags = self.kf_resumed_paused_items()
         if kf:
             return kf, tags
         if self.accepted_rerun and self.status in ("resuming", "running") and self.rerun_offers_since == 0 and not self.inflight:
